@@ -688,6 +688,7 @@ def run(ctx: common.Run):
                                 'spec_out': [sorted((repr(k), round(v, 8)) for k, v in want.items())], 'theorem_or_correspondence': 'wrap_eq_unroll (distribution)'})
 
     check_sympy_key_maps(ctx, cirq)
+    check_if_blocks(ctx, cirq)
     # (5) the whole option space of the scoping template (13 binary options), structure and key queries only
     codes = range(8192) if ctx.tier != 'quick' else [c for c in range(8192) if (c * 2654435761 + ctx.seed) % 8 == 0]
     ecases = []
@@ -721,6 +722,80 @@ def run(ctx: common.Run):
             ctx.report_witness('query:measurement_key_names', 'measurement keys of the wrapped circuit differ from those of its unrolled form', rep)
         if {str(k) for k in cirq.control_keys(wrapped)} != {str(k) for k in cirq.control_keys(spec_circuit)}:
             ctx.report_witness('query:control_keys', 'control keys of the wrapped circuit differ from those of its unrolled form', rep)
+
+
+def check_if_blocks(ctx, cirq):
+    """`cirq.If` blocks (one or several operations, some with classical controls of their own, or a sub-circuit) inside a sub-circuit whose
+    keys are renamed / scoped: every control inside the block follows the renaming.  Deterministic programs; the reference is a classical
+    interpreter of the flat program with the renamed keys."""
+    if not hasattr(cirq, 'If'):
+        return
+    rng = ctx.substream('if-blocks')
+    q = cirq.LineQubit.range(5)
+    for it in range(30 if ctx.tier == 'quick' else 400):
+        k0, k1 = rng.sample(['a', 'b', 'd'], 2)
+        bits = [rng.randint(0, 1), rng.randint(0, 1)]
+        if rng.random() < 0.6:
+            bits = [1, 1]
+        block_kind = rng.choice(['two-ops', 'two-ops', 'sub-circuit', 'single', 'nested-if'])
+        inner = cirq.X(q[2]).with_classical_controls(k1)
+        if block_kind == 'two-ops':
+            blk = cirq.If(k0, inner, cirq.X(q[3]))
+        elif block_kind == 'sub-circuit':
+            blk = cirq.If(k0, cirq.CircuitOperation(cirq.FrozenCircuit(inner, cirq.X(q[3]))))
+        elif block_kind == 'nested-if':
+            blk = cirq.If(k0, cirq.If(k1, cirq.X(q[2])), cirq.X(q[3]))
+        else:
+            blk = cirq.If(k0, inner)
+        flat = [('m', 0, k0), ('m', 1, k1), ('x', 2, (k0, k1))] + ([('x', 3, (k0,))] if block_kind != 'single' else []) + [('m', 2, 'r2'), ('m', 3, 'r3')]
+        body = cirq.FrozenCircuit(cirq.Moment(cirq.measure(q[0], key=k0)), cirq.Moment(cirq.measure(q[1], key=k1)), cirq.Moment(blk), cirq.Moment(cirq.measure(q[2], key='r2'), cirq.measure(q[3], key='r3')))
+        how = rng.choice(['key-map-1', 'key-map-0', 'key-map-both', 'with-mapping', 'rep-ids', 'path-prefix', 'nested-map'])
+        if how == 'key-map-1':
+            op, ren = cirq.CircuitOperation(body, measurement_key_map={k1: 'c'}), {k1: 'c'}
+        elif how == 'key-map-0':
+            op, ren = cirq.CircuitOperation(body, measurement_key_map={k0: 'c'}), {k0: 'c'}
+        elif how == 'key-map-both':
+            op, ren = cirq.CircuitOperation(body, measurement_key_map={k0: k1, k1: k0}), {k0: k1, k1: k0}
+        elif how == 'with-mapping':
+            op, ren = cirq.CircuitOperation(body).with_measurement_key_mapping({k1: 'c'}), {k1: 'c'}
+        elif how == 'rep-ids':
+            op, ren = cirq.CircuitOperation(body, repetitions=1, repetition_ids=['r'], use_repetition_ids=True), {k: 'r:' + k for k in (k0, k1, 'r2', 'r3')}
+        elif how == 'path-prefix':
+            op, ren = cirq.with_key_path_prefix(cirq.CircuitOperation(body), ('p',)), {k: 'p:' + k for k in (k0, k1, 'r2', 'r3')}
+        else:
+            op, ren = cirq.CircuitOperation(cirq.FrozenCircuit(cirq.CircuitOperation(body, measurement_key_map={k1: 'c'})), measurement_key_map={'c': 'e'}), {k1: 'e'}
+        name_of = lambda k: ren.get(k, k)
+        # an unrelated record under the body's own name of k1, with the opposite value, measured outside before
+        prep = [cirq.Moment([cirq.X(q[j]) for j in (0, 1) if bits[j]] + ([cirq.X(q[4])] if not bits[1] else [])), cirq.Moment(cirq.measure(q[4], key=k1))]
+        outer_keys_clash = name_of(k0) == k1 or name_of(k1) == k1
+        if outer_keys_clash:
+            prep = prep[:1]
+        state = {0: bits[0], 1: bits[1], 2: 0, 3: 0, 4: 0 if bits[1] else 1}
+        want = {} if outer_keys_clash else {k1: state[4]}
+        for kind, qi, arg in flat:
+            if kind == 'x':
+                if all(want[name_of(k)] for k in arg):
+                    state[qi] ^= 1
+            else:
+                want[name_of(arg)] = state[qi]
+        forms = {'wrapped': lambda: cirq.Circuit(op), 'mapped_circuit(deep)': lambda: op.mapped_circuit(deep=True), 'unroll_circuit_op(deep)': lambda: cirq.unroll_circuit_op(cirq.Circuit(op), deep=True, tags_to_check=None),
+                 'decompose': lambda: cirq.Circuit(cirq.decompose(op))}
+        ctx.case(['if-block', block_kind, how, bits, k0, k1], True)
+        for fname, mk in forms.items():
+            ctx.count('check', f'if-block:{fname}')
+            try:
+                form = mk()
+                res = cirq.Simulator(seed=1).run(cirq.Circuit(prep, form), repetitions=2)
+                got = {k: int(v[0][0][0]) for k, v in res.records.items()}
+                if any(int(x) != got[k] for k, v in res.records.items() for x in v[:, 0, 0]):
+                    got = 'not deterministic'
+            except Exception as e:  # noqa: BLE001
+                got = f'{type(e).__name__}: {e}'[:150]
+            if got != want:
+                ctx.report_witness('if-block:' + fname.split('(')[0], f'an If block inside a sub-circuit with renamed / scoped keys ({how}; form: {fname}): the records are not those of the flat program with the renamed keys',
+                                   {'lines': [{'block': block_kind, 'renaming': how, 'bits': bits, 'keys': [k0, k1], 'operation': repr(op)[:1500]}], 'impl_out': [got], 'spec_out': [want],
+                                    'theorem_or_correspondence': 'Model.C12 key maps and scoping (controls inside If blocks)'})
+                break
 
 
 def check_sympy_key_maps(ctx, cirq):
